@@ -13,7 +13,11 @@ What is read from C.REPO/src (non-test, non-verif-hooks code only):
   * the filter itself: `post_commit.rs: apply_prompt_storage_mode` must be a `match` on
     `effective_prompt_storage(..)` with arms Local / Notes / Default; each arm is classified as
     strip / redact / uploadThenStrip / keep
-  * `enqueue_prompt_messages_to_cas` clears the messages of every prompt it uploads
+  * `enqueue_prompt_messages_to_cas` clears the messages of every prompt it uploads; its control
+    flow (`EnqShape`): what a failing `serde_json::to_value` / `enqueue_cas_object` inside the loop does
+    (`?` = propagate, or log-and-`continue` = skip), whether url-set and `messages.clear()` follow the
+    enqueue unconditionally, that every other exit of the function is an `Err` (`?`) and the only `Ok` is
+    the final `Ok(())`; and of the Default arm: strip on `Err`, strip when not enqueueing
   * secrets.rs constants MIN_SECRET_LENGTH, MAX_SECRET_LENGTH, REDACT_VISIBLE_CHARS, the extra
     characters of `is_secret_char`, the number of `*` in `redact_secret`, and which `Message`
     variants `redact_secrets_from_prompts` rewrites
@@ -334,6 +338,17 @@ def extract():
         return "keep"
 
     policy = {k: classify_arm(v) for k, v in arms.items()}
+    # the upload function has exactly one caller, the filter (the shape's `stripsOnErr` is a fact about that caller)
+    enq_callers = []
+    for path, code in files.items():
+        for m in re.finditer(r"(?<![A-Za-z0-9_])enqueue_prompt_messages_to_cas\s*\(", code):
+            if re.search(r"\bfn\s+$", code[:m.start()]):
+                continue
+            f = innermost(per_file[path], m.start())
+            enq_callers.append((path, f[0] if f else None))
+    if enq_callers != [(os.path.join("src", "authorship", "post_commit.rs"), FILTER_FN)]:
+        raise ExtractError(f"enqueue_prompt_messages_to_cas is expected to be called once, from {FILTER_FN}; call sites: {enq_callers}")
+    shape = enqueue_shape(pc, per_file[os.path.join("src", "authorship", "post_commit.rs")], arms["Default"])
 
     enq_defs = [f for f in per_file[os.path.join("src", "authorship", "post_commit.rs")] if f[0] == "enqueue_prompt_messages_to_cas"]
     if len(enq_defs) != 1:
@@ -391,8 +406,147 @@ def extract():
     if sorted(kinds + skipped) != sorted(variants):
         raise ExtractError(f"redact_secrets_from_prompts arms {kinds}+{skipped} do not cover Message variants {variants}")
 
-    return {"rows": rows, "policy": policy, "consts": consts, "extra": extra, "stars": stars,
+    return {"rows": rows, "policy": policy, "shape": shape, "consts": consts, "extra": extra, "stars": stars,
             "kinds": kinds, "skipped": skipped, "tainted": sorted(tainted), "skipped_ambiguous": sorted(skipped_ambiguous)}
+
+
+def stmt_of(block, pos):
+    """the statement of `block` (a `{..}` text) that contains offset pos: (start, end) with end at the `;`
+    (or the closing brace of a block statement) at brace/paren depth 0 relative to the block"""
+    # statement starts after the previous `;`/`{`/`}` at depth 1
+    depth, start = 0, 1
+    i = 0
+    while i < pos:
+        ch = block[i]
+        if ch in "{([": depth += 1
+        elif ch in "})]": depth -= 1
+        if depth == 1 and ch in ";{}" and i > 0:
+            start = i + 1
+        i += 1
+    d, j = depth, pos
+    while j < len(block):
+        ch = block[j]
+        if ch in "{([": d += 1
+        elif ch in "})]": d -= 1
+        elif ch == ";" and d == 1:
+            return start, j
+        if d == 0:
+            return start, j
+        j += 1
+    raise ExtractError("statement end not found")
+
+
+def call_end(text, open_paren):
+    depth = 0
+    for j in range(open_paren, len(text)):
+        if text[j] in "([{": depth += 1
+        elif text[j] in ")]}":
+            depth -= 1
+            if depth == 0: return j
+    raise ExtractError("unbalanced call")
+
+
+def on_err(block, call_re, what):
+    """How a failing fallible call inside the loop block is handled: 'propagate' (`call(..)[.map_err(..)]?;`)
+    or 'skip' (the call is the scrutinee of a `match` / `if let` / `let-else` whose error path `continue`s)."""
+    ms = list(re.finditer(call_re, block))
+    if len(ms) != 1:
+        raise ExtractError(f"enqueue loop: expected exactly one {what} call, found {len(ms)}")
+    m = ms[0]
+    e = call_end(block, m.end() - 1)
+    rest = block[e + 1:]
+    # optional `.map_err(..)` adaptors
+    while True:
+        mm = re.match(r"\s*\.\s*map_err\s*\(", rest)
+        if not mm: break
+        ce = call_end(rest, mm.end() - 1)
+        rest = rest[ce + 1:]
+    st, en = stmt_of(block, m.start())
+    stmt = block[st:en + 1]
+    if re.match(r"\s*\?\s*;", rest):
+        if re.search(r"\b(match|if|else|continue|break|return)\b", stmt):
+            raise ExtractError(f"enqueue loop: {what}: `?` inside a compound statement: {stmt.strip()[:120]}")
+        return "propagate", m.start(), en
+    if re.search(r"\bcontinue\b", stmt) and re.search(r"\bErr\b|\belse\b", stmt) and not re.search(r"\b(break|return)\b", stmt):
+        return "skip", m.start(), en
+    raise ExtractError(f"enqueue loop: {what}: error handling is neither `?` nor log-and-continue: {stmt.strip()[:160]}")
+
+
+def enqueue_shape(pc, fns, default_arm):
+    """control-flow facts of enqueue_prompt_messages_to_cas and of the Default arm (model: EnqShape)"""
+    defs = [f for f in fns if f[0] == "enqueue_prompt_messages_to_cas"]
+    if len(defs) != 1:
+        raise ExtractError("enqueue_prompt_messages_to_cas not found exactly once")
+    body = pc[defs[0][2]:defs[0][3] + 1]
+    hdr = pc[defs[0][1]:defs[0][2]]
+    if not re.search(r"->\s*Result\s*<\s*\(\s*\)\s*,", hdr):
+        raise ExtractError("enqueue_prompt_messages_to_cas: return type is not Result<(), _>")
+    loops = list(re.finditer(r"\bfor\s*\(\s*_?[a-z_]*\s*,\s*prompt\s*\)\s*in\s+prompts\s*\.\s*iter_mut\s*\(\s*\)\s*\{", body))
+    if len(loops) != 1:
+        raise ExtractError("enqueue_prompt_messages_to_cas: expected exactly one `for (_, prompt) in prompts.iter_mut()` loop")
+    lo = loops[0].end() - 1
+    le = match_brace(body, lo)
+    loop = body[lo:le + 1]
+    before, after = body[1:loops[0].start()], body[le + 1:-1]
+    # every exit other than the final Ok(()) must be an Err: no `return`, no `Ok(` before / inside the loop
+    if re.search(r"\breturn\b", body):
+        raise ExtractError("enqueue_prompt_messages_to_cas: explicit `return` (an early Ok would leave messages in place)")
+    if after.strip() != "Ok(())":
+        raise ExtractError(f"enqueue_prompt_messages_to_cas: code after the loop is not just `Ok(())`: {after.strip()[:80]}")
+    if re.search(r"\bOk\s*\(\s*\(\s*\)\s*\)", before + loop):
+        raise ExtractError("enqueue_prompt_messages_to_cas: `Ok(())` before the end of the function")
+    if re.search(r"\bprompts?\b[^;]*\b(messages)\b", before):
+        raise ExtractError("enqueue_prompt_messages_to_cas: prompts are touched before the loop")
+    # the loop body is exactly `if !prompt.messages.is_empty() { BLOCK }`
+    gm = re.match(r"\{\s*if\s*!\s*prompt\.messages\.is_empty\(\)\s*\{", loop)
+    if not gm:
+        raise ExtractError("enqueue loop: body does not start with `if !prompt.messages.is_empty() {`")
+    bo = gm.end() - 1
+    be = match_brace(loop, bo)
+    if loop[be + 1:-1].strip():
+        raise ExtractError("enqueue loop: code after the `if !prompt.messages.is_empty()` block")
+    blk = loop[bo:be + 1]
+    if re.search(r"\bbreak\b", blk):
+        raise ExtractError("enqueue loop: `break` (not modelled)")
+    ser, _, _ = on_err(blk, r"serde_json\s*::\s*to_value\s*\(", "serde_json::to_value")
+    enq, enq_pos, enq_end = on_err(blk, r"\.\s*enqueue_cas_object\s*\(", "enqueue_cas_object")
+    # after the enqueue statement, at depth 1 of the block, unconditionally
+    tail = blk[enq_end + 1:-1]
+    flat, depth = [], 0
+    for ch in tail:
+        if ch == "{": depth += 1
+        if depth == 0: flat.append(ch)
+        if ch == "}": depth -= 1
+    flat = "".join(flat)
+    if re.search(r"\b(if|match|continue|return|else)\b", flat) or "?" in flat:
+        raise ExtractError(f"enqueue loop: conditional / fallible code after the enqueue: {flat.strip()[:120]}")
+    sets_url = re.search(r"prompt\.messages_url\s*=\s*Some\s*\(", flat) is not None
+    clears = re.search(r"prompt\.messages\.clear\(\)\s*;", flat) is not None
+    if re.search(r"prompt\.messages\s*=[^=]|prompt\.messages\.(push|extend|insert)\b", blk):
+        raise ExtractError("enqueue loop: messages are written other than by clear()")
+    # the caller's Default arm
+    a = default_arm
+    strips_err = strips_else = False
+    im = re.search(r"\bif\s+([a-z_]+)\s*\{", a)
+    if im:
+        te = match_brace(a, im.end() - 1)
+        then_b = a[im.end() - 1:te + 1]
+        em = re.match(r"\s*else\s*\{", a[te + 1:])
+        if em:
+            eo = te + 1 + em.end() - 1
+            else_b = a[eo: match_brace(a, eo) + 1]
+            strips_else = re.search(r"\bstrip_prompt_messages\s*\(\s*prompts\s*\)\s*;", else_b) is not None
+        e_m = re.search(r"if\s+let\s+Err\s*\([^)]*\)\s*=\s*enqueue_prompt_messages_to_cas\s*\(\s*repo\s*,\s*prompts\s*\)\s*\{", then_b)
+        if e_m:
+            err_b = then_b[e_m.end() - 1: match_brace(then_b, e_m.end() - 1) + 1]
+            flat_err, depth = [], 0
+            for ch in err_b[1:-1]:
+                if ch == "{": depth += 1
+                if depth == 0: flat_err.append(ch)
+                if ch == "}": depth -= 1
+            strips_err = re.search(r"\bstrip_prompt_messages\s*\(\s*prompts\s*\)\s*;", "".join(flat_err)) is not None
+    return {"onSerializeErr": ser, "onEnqueueErr": enq, "setsUrlOnOk": sets_url, "clearsOnOk": clears,
+            "stripsOnErr": strips_err, "stripsWhenNotEnqueueing": strips_else}
 
 
 def lean_str(s):
@@ -418,6 +572,13 @@ def render(x):
     L.append("/-- `apply_prompt_storage_mode`: what each arm of the `match` does to the messages -/")
     L.append("def policy : List (Mode × Action) := [" + ", ".join(
         f"(.{k.lower()}, .{x['policy'][k]})" for k in ("Local", "Notes", "Default")) + "]\n")
+    sh = x["shape"]
+    b = lambda v: str(bool(v)).lower()
+    L.append("/-- control flow of `enqueue_prompt_messages_to_cas` and of the `Default` arm -/")
+    L.append("def enqueueShape : EnqShape :=\n"
+             f"  {{ onSerializeErr := .{sh['onSerializeErr']}, onEnqueueErr := .{sh['onEnqueueErr']},\n"
+             f"    setsUrlOnOk := {b(sh['setsUrlOnOk'])}, clearsOnOk := {b(sh['clearsOnOk'])},\n"
+             f"    stripsOnErr := {b(sh['stripsOnErr'])}, stripsWhenNotEnqueueing := {b(sh['stripsWhenNotEnqueueing'])} }}\n")
     L.append(f"def minSecretLen : Nat := {x['consts']['MIN_SECRET_LENGTH']}")
     L.append(f"def maxSecretLen : Nat := {x['consts']['MAX_SECRET_LENGTH']}")
     L.append(f"def visibleChars : Nat := {x['consts']['REDACT_VISIBLE_CHARS']}")
@@ -445,6 +606,7 @@ if __name__ == "__main__":
         sys.exit(1)
     for r in x["rows"]:
         print(f"{r['file']}:{r['name']}: target={r['target']} reads_wl={r['reads_wl']} filters={r['filters']} calls={r['calls']} serializes={r['serializes']}")
+    print("shape", x["shape"])
     print("policy", x["policy"], "consts", x["consts"], "extra", x["extra"], "stars", x["stars"], "kinds", x["kinds"], "skipped", x["skipped"])
     print("tainted:", x["tainted"])
     print("not followed (ambiguous/generic names):", x["skipped_ambiguous"])
